@@ -43,13 +43,13 @@ class Gen(base.Gen):
         s = self.pick_slot()
         if s is None:
             return
-        kind = rng.choice(["gnew", "gnewarray", "gmalloc"])
-        fam = {"gnew": "new", "gnewarray": "newarray", "gmalloc": "malloc"}[kind]
+        fam = rng.choice(["new", "newarray", "malloc"])
+        form = rng.choice(base.ACQ_FORMS[fam])
         l, size = self.new_label(), self.size()
         f, ln = self.loc()
-        self.ops.append("%s %s %d %d %s %d" % (kind, l, s, size, f, ln))
-        self.blocks[l] = dict(slot=s, size=size, alloc=self.cur[fam], sep=(kind == "gmalloc"), stage=self.stage,
-                              period=self.period, tracked=True)
+        self.ops.append("gacq %s %s %d %d %s %d" % (form, l, s, size, f, ln))
+        self.blocks[l] = dict(slot=s, size=size, alloc=self.cur[fam], sep=(fam == "malloc"), stage=self.stage,
+                              period=self.period, tracked=True, gfam=fam)
         self.occupied.add(s)
 
     def write(self):
@@ -119,36 +119,24 @@ class Gen(base.Gen):
     def grelease(self):
         rng = self.rng
         tr = self.tracked()
-        kind = rng.choice(["gdelete", "gdeletearray", "gfree"])
+        fam = rng.choice(["new", "newarray", "malloc"])
         f, ln = self.loc()
         x = rng.random()
         if x < 0.8 and tr:
-            # mostly the block's own family, sometimes another one
+            # mostly a form of the block's own family (every form of it), sometimes another family
             l = rng.choice(tr)
-            if rng.random() < 0.6:
-                fam = FAMILY[self.blocks[l]["alloc"]]
-                kind = {"N": "gdelete", "A": "gdeletearray", "M": "gfree"}.get(fam, kind)
-            self.ops.append("%s %s 0 %s %d" % (kind, l, f, ln))
+            if rng.random() < 0.65:
+                fam = base.FAMILY_OF_KIND.get(FAMILY[self.blocks[l]["alloc"]], fam)
+            self.ops.append("grel %s %s 0 %s %d" % (rng.choice(base.REL_FORMS[fam]), l, f, ln))
             self.gone(l)
         elif x < 0.9 and tr:
-            self.ops.append("%s %s %d %s %d" % (kind, rng.choice(tr), rng.choice([-1, 1, 2, 3, 8]), f, ln))
+            self.ops.append("grel %s %s %d %s %d" % (rng.choice(base.REL_FORMS[fam]), rng.choice(tr), rng.choice([-1, 1, 2, 3, 8]), f, ln))
         elif x < 0.95:
-            self.ops.append("%s null 0 %s %d" % (kind, f, ln))
+            self.ops.append("grel %s null 0 %s %d" % (rng.choice(base.REL_FORMS[fam]), f, ln))
         elif self.stale:
             l = rng.choice(self.stale)
             if not [m for m in tr if self.blocks[m]["slot"] == self.blocks[l]["slot"]]:
-                self.ops.append("%s %s 0 %s %d" % (kind, l, f, ln))
-
-    def stage_op(self):
-        # one call reports every corrupted block of the stage into the detector's 4 KiB text buffer: keep their number small
-        touched = [l for l in self.tracked() if self.blocks[l].get("touched") and self.blocks[l]["stage"] == self.stage]
-        if len(touched) > 10:
-            l = self.rng.choice(touched)
-            b = self.blocks[l]
-            self.ops.append("free %d %s 0 z.c 2 %d" % (b["alloc"], l, b["sep"]))
-            self.gone(l)
-            return
-        base.Gen.stage_op(self)
+                self.ops.append("grel %s %s 0 %s %d" % (rng.choice(base.REL_FORMS[fam]), l, f, ln))
 
     def overloads_op(self):
         self.ops.append("overloads " + self.rng.choice(["threadsafe", "threadsafe", "plain"]))
@@ -306,19 +294,20 @@ def sweep_addresses(sep):
 
 
 def sweep_overloads(tc, curs, threadsafe=False):
-    """3 acquiring x 3 releasing overloads, with the current allocators `curs`, plain or thread-safe overloads"""
+    """every acquiring form x every releasing form of the real overloads, with the current allocators `curs`, plain or
+    thread-safe overloads: pairs of one family must be silent, pairs of different families a mismatch (checking on)"""
     ops = ["setup", "typecheck " + ("on" if tc else "off"), "overloads " + ("threadsafe" if threadsafe else "plain")]
     for fam, ai in curs.items():
         ops.append("setcur %s %d" % (fam, ai))
     k = 0
-    for acq in ("gnew", "gnewarray", "gmalloc"):
-        for rel in ("gdelete", "gdeletearray", "gfree"):
-            for size in (0, 1, 7, 8, 33):
+    for af in sum(base.ACQ_FORMS.values(), []):
+        for rf in sum(base.REL_FORMS.values(), []):
+            for size in (0, 9):
                 k += 1
-                ops.append("%s o%d %d %d s.c %d" % (acq, k, (k * 3) % NSLOTS, size, k))
+                ops.append("gacq %s o%d %d %d s.c %d" % (af, k, (k * 3) % NSLOTS, size, k))
                 if size:
                     ops.append("write o%d %d 7e" % (k, size - 1))
-                ops.append("%s o%d 0 t.c %d" % (rel, k, k))
+                ops.append("grel %s o%d 0 t.c %d" % (rf, k, k))
     return ops
 
 
@@ -385,7 +374,7 @@ def _classes(r):
         if not w:
             continue
         if w[0] == ">":
-            if op and op[0] in ("free", "gdelete", "gdeletearray", "gfree", "realloc") and fails == 0:
+            if op and op[0] in ("free", "grel", "realloc") and fails == 0:
                 yield "release_silent_" + ("overload" if op[0][0] == "g" else "direct")
             op, fails = w[1:], 0
             if op[:1] == ["overloads"]:
@@ -393,6 +382,13 @@ def _classes(r):
         elif w[0] == "fail":
             fails += 1
             yield "report_" + w[1] + ("_overload" if op and op[0][0] == "g" else "")
+        elif w[0] == "ufree" and op and op[0] == "grel":
+            yield "release_form_" + op[1]
+            if ts:
+                yield "threadsafe_overload_release"
+            yield "overload_release_poisoned" if w[3] != "-" and set(w[3]) <= set("cd") else "overload_release_empty_block" if w[3] == "-" else "overload_release_NOT_poisoned"
+        elif w[0] == "ret" and op and op[0] == "gacq" and w[1] != "0":
+            yield "acquire_form_" + op[1]
         elif w[0] == "ufree" and op and op[0][0] == "g":
             if ts:
                 yield "threadsafe_overload_release"
